@@ -334,7 +334,9 @@ def expected_ports(p_list, m_list):
 def e2e_configs(rng, n_random):
     ps = [None, ["8443"], ["8443", "9443"], ["9443", "4433"]]
     ms_ = [None, [], ["443:8080"], ["443:9000"], ["8443:9001"], ["443:9000,", "8443:9001"], ["443:9000", "8443:9001,", "9443:9002"],
-           ["44330:443", "443:44330"], ["40001:7777", "443:9000", "50001:7778"]]   # the last one lists client ports
+           ["44330:443", "443:44330"], ["40001:7777", "443:9000", "50001:7778"],   # the last one lists client ports
+           ["443:65535,"], ["8443:65535", "443:1"], ["443:65534", "8443:2,"],       # the ends of the port range are ports like any other
+           ["443:443", "8443:8443,"]]                                              # a pair may map a port to itself
     out = [(p, m) for p in ps for m in ms_]
     for _ in range(n_random):
         p = None if rng.random() < 0.3 else rng.sample(["8443", "9443", "5000", "4433", "443"], rng.randrange(1, 4))
